@@ -14,9 +14,12 @@ success, followed by the top-level newline of `Flush`.  An error returns the unc
 
 Simplifications, each validated by the correspondence harness (family `enc`):
  * a number token is its rendered text (`Token.appendNumber` cannot fail for Int/Uint/Float tokens);
- * `ReformatString` is modelled as `quote (unquote literal)`: the verbatim-copy fast paths
+ * the scanners of raw values are the jsonwire models of slice C01 (Model/WireDecode.lean through
+   Model/Validate.lean: `valueLiteral`, `valueString` = ConsumeSimpleString/ConsumeString, `valueNumber`,
+   `unescapedName` = what `insertQuoted` stores), so that the encoder's validator and the decoder's validator
+   share their leaves; `ReformatString` is modelled as `quote (unescaped literal)`: the verbatim-copy fast paths
    (`ConsumeSimpleString`, `IsCanonical` without escape flags) produce the same bytes;
- * `ConsumeSimpleNumber`'s fast path is subsumed by `scanNumber`; the flags `PreserveRawStrings`,
+ * the flags `PreserveRawStrings`,
    `CanonicalizeRawInts/Floats`, `ReorderRawObjects`, `OmitTopLevelNewline` are off;
  * errors are classes (no offsets, no pointers, no message text).
 Core Lean only.
@@ -24,6 +27,7 @@ Core Lean only.
 import JsonV.Model.Basic
 import JsonV.Model.Utf8
 import JsonV.Model.State
+import JsonV.Model.Validate
 
 namespace JsonV.Model.Encoder
 open JsonV.Model
@@ -122,15 +126,13 @@ def appendQuote (o : Opts) (src : Bytes) : Bytes × Bool :=
   let (body, bad) := quoteGo o 0 src
   (0x22 :: body ++ [0x22], bad && !o.allowInvalidUTF8)
 
-/-! ### jsonwire: scanning a string literal -/
+/-! ### jsonwire: unquoting (used for the names of string tokens and raw string values) -/
 
 def hexVal (c : UInt8) : Option Nat :=
   if 0x30 ≤ c ∧ c ≤ 0x39 then some (c.toNat - 0x30)
   else if 0x61 ≤ c ∧ c ≤ 0x66 then some (c.toNat - 0x61 + 10)
   else if 0x41 ≤ c ∧ c ≤ 0x46 then some (c.toNat - 0x41 + 10)
   else none
-
-def isHex (c : UInt8) : Bool := (hexVal c).isSome
 
 /-- `parseHexUint16` on exactly four bytes. -/
 def hex4 : Bytes → Option Nat
@@ -139,72 +141,6 @@ def hex4 : Bytes → Option Nat
     | some a, some b, some c, some d => some (a * 4096 + b * 256 + c * 16 + d)
     | _, _, _, _ => none
   | _ => none
-
-/-- `hasEscapedUTF16Prefix(b, lowerSurrogateHalf)` for `len(b) < 6`. -/
-def hasEscapedUTF16Prefix (b : Bytes) (lower : Bool) : Bool :=
-  (b.zipIdx).all fun (c, i) =>
-    if i = 0 then c = 0x5c
-    else if i = 1 then c = 0x75
-    else if i = 2 ∧ lower ∧ c ≠ 0x64 ∧ c ≠ 0x44 then false
-    else if i = 3 ∧ lower ∧ ¬(0x63 ≤ c ∧ c ≤ 0x66) ∧ ¬(0x43 ≤ c ∧ c ≤ 0x46) then false
-    else if i ≥ 2 ∧ i < 6 then isHex c
-    else true
-
-/-- For `b = '\\' :: rest`: the number of bytes after the backslash that belong to the escape
-sequence (1, 5 or 11), or the error `ConsumeString` reports. -/
-def escapeLen (validate : Bool) (rest : Bytes) : Except EncErr Nat :=
-  match rest with
-  | [] => .error .unexpectedEOF
-  | c :: r =>
-    if c = 0x2f ∨ c = 0x22 ∨ c = 0x5c ∨ c = 0x62 ∨ c = 0x66 ∨ c = 0x6e ∨ c = 0x72 ∨ c = 0x74 then .ok 1
-    else if c = 0x75 then
-      if r.length < 4 then
-        if hasEscapedUTF16Prefix (0x5c :: rest) false then .error .unexpectedEOF else .error .invalidEscape
-      else match hex4 (r.take 4) with
-        | none => .error .invalidEscape
-        | some v1 =>
-          if validate && Utf8.isSurrogate v1 then
-            let r2 := r.drop 4
-            if r2.length < 6 then
-              if hasEscapedUTF16Prefix r2 true then .error .unexpectedEOF else .error .invalidEscape
-            else match r2 with
-              | 0x5c :: 0x75 :: r3 =>
-                match hex4 (r3.take 4) with
-                | none => .error .invalidEscape
-                | some v2 => if Utf8.utf16DecodeRune v1 v2 = Utf8.runeError then .error .invalidEscape else .ok 11
-              | _ => .error .invalidEscape
-          else .ok 5
-    else .error .invalidEscape
-
-/-- `ConsumeString` after the opening quote: (literal body including the closing quote, rest). -/
-def scanStr (validate : Bool) : Nat → Bytes → Except EncErr (Bytes × Bytes)
-  | _, [] => .error .unexpectedEOF
-  | skip + 1, c :: rest =>
-    match scanStr validate skip rest with
-    | .ok (a, r) => .ok (c :: a, r)
-    | .error e => .error e
-  | 0, c :: rest =>
-    if c = 0x22 then .ok ([c], rest)
-    else if c = 0x5c then
-      match escapeLen validate rest with
-      | .error e => .error e
-      | .ok n =>
-        match scanStr validate n rest with
-        | .ok (a, r) => .ok (c :: a, r)
-        | .error e => .error e
-    else if c < 0x20 then .error .invalidChar
-    else
-      let next (skip : Nat) : Except EncErr (Bytes × Bytes) :=
-        match scanStr validate skip rest with
-        | .ok (a, r) => .ok (c :: a, r)
-        | .error e => .error e
-      if c < 0x80 then next 0
-      else
-        let (_, rn) := Utf8.decodeRune (c :: rest)
-        if rn > 1 then next (rn - 1)
-        else if !Utf8.fullRune (c :: rest) then .error .unexpectedEOF
-        else if validate then .error .invalidUTF8
-        else next 0
 
 /-- `\uXXXX` (and a following low surrogate) as in `AppendUnquote`: `r` = bytes after `\u`;
 returns the rune and the number of bytes consumed after the `u` (4 or 10). -/
@@ -250,17 +186,26 @@ def unquoteGo : Nat → Bytes → Bytes
 /-- Unquote a whole literal `"` body `"`. -/
 def unquote (lit : Bytes) : Bytes := unquoteGo 0 (lit.drop 1)
 
-/-- `ReformatString`: scan a literal at the start of `src` (which starts with `"`), re-quote it. -/
+/-- The two options that select the grammar, as the validator model takes them. -/
+def vopts (o : Opts) : Validate.VOpts := ⟨o.allowInvalidUTF8, o.allowDup⟩
+
+/-- Error classes of the jsonwire scanners. -/
+def wireErr : Wire.Err → EncErr
+  | .eof => .unexpectedEOF
+  | .invalidChar => .invalidChar
+  | .invalidEscape => .invalidEscape
+  | .invalidUTF8 => .invalidUTF8
+  | _ => .bug
+
+/-- `ConsumeSimpleString`/`ReformatString`: scan the literal at the start of `src`, re-quote its unescaped
+value: (output literal, unescaped value = the name `insertQuoted` stores, rest). -/
 def reformatString (o : Opts) (src : Bytes) : Except EncErr (Bytes × Bytes × Bytes) :=
-  match src with
-  | 0x22 :: body =>
-    match scanStr (!o.allowInvalidUTF8) 0 body with
-    | .error e => .error e
-    | .ok (lit, rest) =>
-      let name := unquoteGo 0 lit
-      .ok ((appendQuote o name).1, name, rest)      -- (output literal, unquoted value, rest)
-  | [] => .error .unexpectedEOF
-  | _ => .error .invalidChar
+  match Validate.valueString (vopts o) src with
+  | (n, fl, e) =>
+    if e = .ok then
+      let name := Validate.unescapedName (src.take n) fl
+      .ok ((appendQuote o name).1, name, src.drop n)
+    else .error (wireErr e)
 
 /-! ### jsonwire: whitespace, literals, numbers -/
 
@@ -271,64 +216,18 @@ def skipWS : Bytes → Bytes
   | [] => []
   | c :: rest => if isWS c then skipWS rest else c :: rest
 
-/-- `ConsumeLiteral(src, lit)`: the rest after the literal, or invalid character / unexpected EOF. -/
-def scanLiteral : Bytes → Bytes → Except EncErr Bytes
-  | src, [] => .ok src
-  | [], _ :: _ => .error .unexpectedEOF
-  | c :: src, l :: lit => if c = l then scanLiteral src lit else .error .invalidChar
+/-- `ConsumeNull/False/True`, else `ConsumeLiteral(src, lit)`: the rest after the literal, or invalid
+character / unexpected EOF. -/
+def scanLiteral (src lit : Bytes) : Except EncErr Bytes :=
+  match Validate.valueLiteral lit src with
+  | (n, e) => if e = .ok then .ok (src.drop n) else .error (wireErr e)
 
 def isDigit (c : UInt8) : Bool := 0x30 ≤ c && c ≤ 0x39
 
-/-- Longest prefix of digits: (digits, rest). -/
-def spanDigits : Bytes → Bytes × Bytes
-  | [] => ([], [])
-  | c :: rest => if isDigit c then let (d, r) := spanDigits rest; (c :: d, r) else ([], c :: rest)
-
-/-- "one digit required, then any number of digits". -/
-def digits1 (src : Bytes) : Except EncErr (Bytes × Bytes) :=
-  match src with
-  | [] => .error .unexpectedEOF
-  | c :: rest => if isDigit c then let (d, r) := spanDigits rest; .ok (c :: d, r) else .error .invalidChar
-
-/-- `ConsumeNumber`: (number text, rest). -/
+/-- `ConsumeSimpleNumber`, else `ConsumeNumber`: (number text, rest). -/
 def scanNumber (src : Bytes) : Except EncErr (Bytes × Bytes) :=
-  let (sign, s1) : Bytes × Bytes := match src with
-    | 0x2d :: r => ([0x2d], r)
-    | _ => ([], src)
-  -- beforeInteger
-  let intPart : Except EncErr (Bytes × Bytes) := match s1 with
-    | [] => .error .unexpectedEOF
-    | c :: r =>
-      if c = 0x30 then .ok ([c], r)
-      else if 0x31 ≤ c ∧ c ≤ 0x39 then let (d, r') := spanDigits r; .ok (c :: d, r')
-      else .error .invalidChar
-  match intPart with
-  | .error e => .error e
-  | .ok (ip, s2) =>
-    -- beforeFractional
-    let fracPart : Except EncErr (Bytes × Bytes) := match s2 with
-      | 0x2e :: r => match digits1 r with
-        | .ok (d, r') => .ok (0x2e :: d, r')
-        | .error e => .error e
-      | _ => .ok ([], s2)
-    match fracPart with
-    | .error e => .error e
-    | .ok (fp, s3) =>
-      -- beforeExponent
-      let expPart : Except EncErr (Bytes × Bytes) := match s3 with
-        | c :: r =>
-          if c = 0x65 ∨ c = 0x45 then
-            let (sg, r1) : Bytes × Bytes := match r with
-              | x :: r' => if x = 0x2d ∨ x = 0x2b then ([x], r') else ([], r)
-              | [] => ([], r)
-            match digits1 r1 with
-            | .ok (d, r') => .ok (c :: sg ++ d, r')
-            | .error e => .error e
-          else .ok ([], s3)
-        | [] => .ok ([], s3)
-      match expPart with
-      | .error e => .error e
-      | .ok (ep, s4) => .ok (sign ++ ip ++ fp ++ ep, s4)
+  match Validate.valueNumber src with
+  | (n, e) => if e = .ok then .ok (src.take n, src.drop n) else .error (wireErr e)
 
 /-- `Kind(b).normalize()`. -/
 def normKind (c : UInt8) : UInt8 :=
@@ -364,7 +263,7 @@ def beforeToken (e : Enc) (k : UInt8) : Bytes :=
 /-! ### reformatValue -/
 
 mutual
-/-- `reformatValue(dst, src, depth)`: (dst', rest) — fuel ≥ `2 * src.length + 2` suffices
+/-- `reformatValue(dst, src, depth)`: (dst', rest) — fuel `3 * |v| + 4` (the `fuelFor` of the validator model) suffices
 (every call consumes one unit; a nesting level costs two units and at least one byte, a loop iteration one unit and at least two bytes). -/
 def reformatValue (o : Opts) : Nat → Bytes → Bytes → Nat → Except EncErr (Bytes × Bytes)
   | 0, _, _, _ => .error .bug
@@ -525,7 +424,7 @@ def writeToken (e : Enc) (t : Tok) : Enc × Option EncErr :=
 def writeValue (e : Enc) (v : Bytes) : Enc × Option EncErr :=
   let k := valueKind v
   let b := beforeToken e k
-  match reformatValue e.o (2 * v.length + 2) b (skipWS v) e.m.depth with
+  match reformatValue e.o (3 * v.length + 4) b (skipWS v) e.m.depth with
   | .error err => (e, some err)
   | .ok (b', rest) =>
     match skipWS rest with
